@@ -385,24 +385,33 @@ def sortNat : List Nat → List Nat
   | [] => []
   | x :: xs => insertNatSorted x (sortNat xs)
 
+/-- `DeleteDV` records of a compaction: the delete vectors of the row-sets it removes (per row-set
+in id order, DV ids ascending) -/
+def compactDvDels (s : Store) (tid : Nat) (selected : List Nat) : List Rec :=
+  selected.flatMap fun rs =>
+    (sortNat ((s.dvs.filter fun e => e.tid == tid && e.rs == rs).map (·.dv))).map fun dv => Rec.delDV tid rs dv
+
 /-- `compact_table` for one table; `sel` = the row-set ids the size-based greedy selection picked
-(ANY subset: the real choice depends on file sizes and hash order) -/
+(ANY subset: the real choice depends on file sizes and hash order).  One commit:
+`AddRowSet?, DeleteRowSet*, DeleteDV*` - the delete vectors of the removed row-sets go with them. -/
 def Store.compactTable (s : Store) (tid : Nat) (d : TableDef) (sel : List Nat) : Store :=
   let selected := sortNat ((s.rowsetsOf tid).filter sel.contains)
   if selected.length ≤ 1 then s
   else
     let inputs := selected.map fun rs => (s.rsVisible tid rs).map (·.2)
     let rows := if d.sortKey.isEmpty then inputs.flatten else mergeAll (keyLe d.sortKey) inputs
-    let dels := selected.map fun rs => Rec.delRowSet tid rs
+    let dels := (selected.map fun rs => Rec.delRowSet tid rs) ++ compactDvDels s tid selected
     let keep := s.rowsets.filter fun x => !(x.1 == tid && selected.contains x.2)
+    let keepDv := s.dvs.filter fun e => !(e.tid == tid && selected.contains e.rs)
     let pend := s.pending ++ selected.map fun rs => (tid, rs)
     if rows.isEmpty then
-      { (s.commit dels) with rowsets := keep, pending := pend }
+      { (s.commit dels) with rowsets := keep, dvs := keepDv, pending := pend }
     else
       { (s.commit (Rec.addRowSet tid s.nextRs :: dels)) with
           nextRs := s.nextRs + 1
           dirs := s.dirs ++ [((tid, s.nextRs), rows)]
           rowsets := keep ++ [(tid, s.nextRs)]
+          dvs := keepDv
           pending := pend }
 
 /-- one pass of `Compactor::run`: tables are visited in hash-map order, each with its own commit;
